@@ -222,7 +222,12 @@ AdmMach(pre, v, f, ctx, adv) ==
 \* threat flag: shown (non-blank) or not
 AdmThr(pre, v, f, ctx) ==
   IF Free(f) THEN TRUE
-  ELSE IF IsCommB(f) THEN (v # pre.thr => May30(pre, f, ctx) /\ ((v # <<>>) <=> Threat30(f)))
+  ELSE IF IsCommB(f) THEN /\ (v # pre.thr => May30(pre, f, ctx) /\ ((v # <<>>) <=> Threat30(f)))
+                          \* conversely: an explicit BDS 3,0 reply on an existing row with the gate open IS decoded - a reply that
+                          \* reports no threat clears the flag
+                          \* (strictly a 3,0 report: threat-type indicator not the unassigned value 3, ARA bits 8-14 clear)
+                          /\ ((ctx.exists /\ May30(pre, f, ctx) /\ MField(f, 29, 30) # 3 /\ MField(f, 16, 22) = 0)
+                                 => ((v # <<>>) <=> Threat30(f)))
   ELSE v = pre.thr
 
 (***************************************************************************)
